@@ -293,13 +293,13 @@ extern "C" void vp_enum(int tier, uint64_t seed, uint32_t shard, uint32_t nshard
             VpCase c; std::memset(&c, 0, sizeof c); c.target = t; c.op = op;
             size_t fill = 0; uint64_t rot = seed + op, cnt = 0;
             const std::vector<uint64_t>& A = (nops == 1 && !is_exp) ? L : S;
-            const size_t nb = (nops >= 2 && !is_exp) ? A.size() : (is_exp ? 41 : 1);
-            const size_t bstep = (nb > 64 && (tier == 0 || nops == 3)) ? (nb / 48 + 1) : 1;
+            const size_t nb = (nops >= 2 && !is_exp) ? A.size() : (is_exp ? 268 : 1);
+            const size_t bstep = (!is_exp && nb > 64 && (tier == 0 || nops == 3)) ? (nb / 48 + 1) : 1;
             for (size_t i = 0; i < A.size(); ++i)
                 for (size_t j = (i % bstep); j < nb; j += bstep) {
                     unsigned lane = (unsigned)((fill + rot) % W);
                     c.v[0][lane] = A[i];
-                    c.v[1][lane] = is_exp ? (uint64_t)(int64_t)(((long)j - 20) * 17) : (nops >= 2 ? A[j] : 0);
+                    c.v[1][lane] = is_exp ? (uint64_t)(int64_t)(((long)j - 134) * 3 + (long)(i % 3)) : (nops >= 2 ? A[j] : 0);   // every exponent in -402..401 over three values
                     c.v[2][lane] = A[(i * 31 + j * 7 + 3) % A.size()];
                     c.v[3][lane] = (cnt + lane) & 1;
                     if (++fill == W) { if (is_rot) c.s[0] = (int64_t)((cnt * 7) % 140) - 70; emit(&c, ctx); fill = 0; ++rot; ++cnt; }
